@@ -92,6 +92,9 @@ class Free:
     def __neg__(self):
         return Free({w: -c for w, c in self.t.items()})
 
+    def __pos__(self):
+        return self
+
     def __sub__(self, o):
         o = self._lift(o)
         if o is NotImplemented:
